@@ -60,10 +60,10 @@ theorem appendLast_snoc (as : List Bytes) (x : Bytes) (b : UInt8) :
       simp
 
 /-- the rest of an argument's bytes inside the block copy (binary-safe: any bytes) -/
-theorem dataRun (xs : Bytes) (hx : xs ≠ []) (x : Bytes) (as : List Bytes) (g : Nat) (hg : g ≠ 0) (rem : Nat) (cl ac : Int)
+theorem dataRun (xs : Bytes) (hx : xs ≠ []) (x : Bytes) (as : List Bytes) (g : Nat) (hg : g ≠ 0) (cl ac : Int)
     (p : Option UInt8) (acc : Cmds) (tail : Bytes) :
-    runBytes ⟨.s4, [], g, cl, as ++ [x], ac⟩ ⟨p, .data xs.length rem⟩ acc (xs ++ tail) =
-      runBytes ⟨.s4, [], rem, cl, as ++ [x ++ xs], ac⟩ ⟨some (xs.getLast hx), .scan⟩ acc tail := by
+    runBytes ⟨.s4, [], g, cl, as ++ [x], ac⟩ ⟨p, .data xs.length⟩ acc (xs ++ tail) =
+      runBytes ⟨.s4, [], cl.toNat, cl, as ++ [x ++ xs], ac⟩ ⟨some (xs.getLast hx), .scan⟩ acc tail := by
   induction xs generalizing x g p with
   | nil => exact absurd rfl hx
   | cons b bs ih =>
